@@ -11,6 +11,7 @@ from __future__ import annotations
 
 import collections
 import copy
+import os
 import gc
 import hashlib
 import pickle
@@ -64,6 +65,13 @@ def tier_config(tier):
 
 
 def jobs(tier, seed, flavours):
+    only = os.environ.get('VERIF_C16_ONLY')  # development aid: restrict to one job family (not used by registered commands)
+    if only:
+        i = 0
+        while True:
+            for fl in flavours:
+                yield {'kind': only, 'i': i, 'seed': seed, 'flavour': fl}
+            i += 1
     # deterministic sub-sweeps first (both flavours), then seeded reentry / confusion jobs forever
     for fl in flavours:
         for kind in DEPTH_KINDS:
